@@ -27,6 +27,36 @@ PID = 'C11'
 _CR = {}
 
 
+class TimesModel(object):
+    """witness times built from the model of the integer view: time_j = isample_j + a fractional part consistent with the
+    rounding booleans (0.75 if 'fraction >= 0.5' holds, else 0.25, 0 if 'fraction > 0' is false); validated by the replay"""
+
+    def __init__(self, bits):
+        self.bits = bits
+
+    def eval(self, var, model_completion=True):
+        return z3.BitVecVal(self.bits.get(str(var), 0), 64)
+
+
+def times_model(smt, ints, tf_ids):
+    try:
+        m = smt.model()
+    except Exception:
+        return None
+    bits = {}
+    for j, w in enumerate(ints):
+        n = m.eval(w, model_completion=True).as_long()
+        ge = m.eval(z3.Bool('fracgehalf_%d' % tf_ids[j]), model_completion=False)
+        pos = m.eval(z3.Bool('fracpos_%d' % tf_ids[j]), model_completion=False)
+        frac = 0.25
+        if z3.is_true(ge):
+            frac = 0.75
+        elif z3.is_false(pos):
+            frac = 0.0
+        bits['time_%d' % j] = f2b(float(n) + frac)
+    return TimesModel(bits)
+
+
 class SchedViolation(PanicReached):
     def __init__(self, msg):
         PanicReached.__init__(self, msg, 'sched')
@@ -173,6 +203,7 @@ def analyse(args):
     crate = get_crate(mirs)
     smt = Smt(qto)
     it = Interp(crate, smt, Models())
+    it.deadline = time.time() + (240 if qto <= 5000 else 1500)      # per scenario; exhausted -> reported as inconclusive
     ex = Explorer(smt, 4000)
     K = len(scen)
     out = dict(scenario=[list(s) for s in scen], T=T, paths=0, findings=[], unsupported=[], checks=0)
@@ -188,6 +219,7 @@ def analyse(args):
     def path(it):
         times = []
         ints = []
+        tf_ids = []
         links = []      # isample_j == (time_j as u64): every u64 below 2^40 is the truncation of some f64 in range, so the queue logic
                         # is explored over the integer view alone and the FP link is only added to extract a witness
         for j in range(K):
@@ -195,6 +227,7 @@ def analyse(args):
             tf = it.smt.fp_from_bits(tb)
             it.smt.add(z3.And(z3.Not(z3.fpIsNaN(tf)), z3.Not(z3.fpIsInf(tf)), z3.fpGEQ(tf, z3.FPVal(0.0, S.F64)), z3.fpLT(tf, z3.FPVal(float(1 << 40), S.F64))))
             times.append(Sc('f64', tf))
+            tf_ids.append(tf.get_id())
             conv = it.float_to_int(Sc('f64', tf), 'u64').v             # Rust `as u64`: truncation (exact SMT-FP semantics)
             w = z3.BitVec('isample_%d' % j, 64)
             links.append(w == conv)
@@ -215,7 +248,7 @@ def analyse(args):
             else:
                 it.smt.add(z3.UGT(ints[j], ints[sc[1]]))
         logs = {}
-        it.path_links = links
+        it.path_links = []          # witnesses are built from the integer view (times_model), never by solving the FP links
         for be in ('vm', 'wasm'):
             run = Run(it, be, scen, T, times)
             logs[be] = run.play()
@@ -228,13 +261,17 @@ def analyse(args):
                 reachable = True
                 sc = scen[j]
                 if len(hits) > 1:
-                    raise SchedViolation('%s: task %d ran %d times (samples %s)' % (be, j, len(hits), hits))
+                    e = SchedViolation('%s: task %d ran %d times (samples %s)' % (be, j, len(hits), hits))
+                    e.model = (times_model(it.smt, ints, tf_ids) if it.smt.check() == z3.sat else None) or TimesModel({})
+                    raise e
                 if len(hits) == 1:
                     c = ints[j] == hits[0]
-                    if it.smt.check(z3.Not(c)) != z3.unsat:
+                    rr_ = it.smt.check(z3.Not(c))
+                    if rr_ != z3.unsat:
                         e = SchedViolation('%s: task %d ran at sample %d which is not floor(time)' % (be, j, hits[0]))
-                        if it.smt.check(z3.Not(c), *links) == z3.sat:
-                            e.model = it.smt.model()
+                        e.model = times_model(it.smt, ints, tf_ids) if rr_ == z3.sat else None
+                        if e.model is None:
+                            e.model = TimesModel({})
                         raise e
                 else:
                     # not run within the horizon: only legitimate when floor(time) >= T (or its parent never ran)
@@ -247,13 +284,17 @@ def analyse(args):
                         p = scen[p[1]]
                     if parent_ran:
                         c = z3.UGE(ints[j], T)
-                        if it.smt.check(z3.Not(c)) != z3.unsat:
+                        rr_ = it.smt.check(z3.Not(c))
+                        if rr_ != z3.unsat:
                             e = SchedViolation('%s: task %d was dropped (its sample lies inside the horizon of %d samples)' % (be, j, T))
-                            if it.smt.check(z3.Not(c), *links) == z3.sat:
-                                e.model = it.smt.model()
+                            e.model = times_model(it.smt, ints, tf_ids) if rr_ == z3.sat else None
+                            if e.model is None:
+                                e.model = TimesModel({})
                             raise e
         if sorted(logs['vm']) != sorted(logs['wasm']):
-            raise SchedViolation('VM worker and WASM handle disagree: %s vs %s' % (logs['vm'], logs['wasm']))
+            e = SchedViolation('VM worker and WASM handle disagree: %s vs %s' % (logs['vm'], logs['wasm']))
+            e.model = (times_model(it.smt, ints, tf_ids) if it.smt.check() == z3.sat else None) or TimesModel({})
+            raise e
         return logs
     res = ex.explore(it, path)
     out['paths'] = len(res)
